@@ -588,8 +588,12 @@ class Ref:
                 if end - pos > o["byte_size"]:
                     raise Skip("structure content larger than BYTE-SIZE")
                 tgt = pos + o["byte_size"]
-                if end < tgt:
-                    cx.pdu.put(end, bytes(tgt - end), b"\xff" * (tgt - end))
+                # padding: the structure extends to BYTE-SIZE; only bytes not yet part of the
+                # PDU are added (zero) - parameters listed out of positional order have already
+                # been laid out beyond the cursor and must stay
+                start = max(end, len(cx.pdu.buf))
+                if start < tgt:
+                    cx.pdu.put(start, bytes(tgt - start), b"\xff" * (tgt - start))
                 end = tgt
             return end
         if t == "SFIELD":
@@ -653,6 +657,8 @@ class Ref:
             cx.pdu.ensure(pos)
             return pos
         if t == "MUX":
+            if isinstance(value, dict) and len(value) == 1:
+                value = next(iter(value.items()))  # {case: content} is an accepted spelling
             if not (isinstance(value, (list, tuple)) and len(value) == 2):
                 raise Unrepresentable("wrong-shape", "mux value")
             case_name, content = value
